@@ -85,7 +85,8 @@ Theorem C10_send_message_write_all : forall hdr_fields c m w0 ds c' w' r,
             /\ fds_delivered w' = fds_delivered w0 ++ msg_raw_fds m
             /\ wire_serial (header_buf c') = Some s
             /\ s = match dh_serial (msg_dyn m) with Some p => p | None => serial_counter c end
-  | Err | OutOfFuel => exists p, wire w' = wire w0 ++ p
+  | Err | OutOfFuel => exists p, wire w' = wire w0 ++ p /\ is_prefix p (header_buf c' ++ msg_body m)
+                                 /\ fds_delivered w' = fds_delivered w0 ++ match p with [] => [] | _ => msg_raw_fds m end
   | Panic => dh_serial (msg_dyn m) = None /\ serial_counter c + 1 = 2^32
   | UB => False
   end.
